@@ -453,6 +453,8 @@ def run (ctx):
           good = defs.arity_ok(s, c)
           ctx.ob('R-DEF', s, "override of send() accepts send_error's call `%s`" % norm(c), good,
                  "compatible" if good else "%s.send%s cannot bind the call %s made by send_error: every error reply of this switch raises TypeError" % (sub.name, tuple(s.params), norm(c)), s, 'D7')
+  # ---- mechanisms this property shares with others: their checks' rules about these functions are obligations here too
+  ctx.include('C02', ['OFConnection.read'], 'requests reach the handlers through the switch-side read loop')
 
 def _stats_request (ctx, repo, sw, h, stats_handlers, weight, spec):
   swmod = sw.module
